@@ -11,6 +11,8 @@ mod fw;
 mod refeval;
 mod c04;
 mod c08;
+mod c11;
+mod graphref;
 mod c16;
 
 use fw::*;
@@ -20,6 +22,7 @@ fn make_check(prop: &str, tier: Tier) -> Option<Box<dyn Check>> {
     Some(match prop {
         "C04" => Box::new(c04::C04::new(tier)),
         "C08" => Box::new(c08::C08::new(tier)),
+        "C11" => Box::new(c11::C11::new(tier)),
         "C16" => Box::new(c16::C16::new(tier)),
         _ => return None,
     })
